@@ -2412,6 +2412,9 @@ impl<'input, T: Input> Scanner<'input, T> {
         self.skip_non_blank();
         if self.input.look_ch() == '\t'
             && !self.skip_ws_to_eol(SkipTabs::Yes)?.has_valid_yaml_ws()
+            // Only block context needs a space here: in a flow collection (and thus in JSON)
+            // tabs may separate the ':' from the value.
+            && self.flow_level == 0
             && (self.input.peek() == '-' || self.input.next_is_alpha())
         {
             return Err(ScanError::new_str(
